@@ -207,6 +207,7 @@ class OutputFiles:
         self._text_files: List[TextIO] = []
         self._writers: List[Any] = []
         self._record_writers: Dict[Any, Any] = {}
+        self._exclusive_writers: Set[Any] = set()
         self._used_paths: Set[str] = set()
         self._proxy_files: List[ProxyWriter] = []
         self._proxied = proxied
@@ -240,7 +241,11 @@ class OutputFiles:
             return text_file
 
     def open_record_writer(
-        self, *paths, interleaved: bool = False, force_fasta: bool = False
+        self,
+        *paths,
+        interleaved: bool = False,
+        force_fasta: bool = False,
+        exclusive: bool = False,
     ):
         kwargs: Dict[str, Any] = dict(
             qualities=self._qualities, interleaved=interleaved
@@ -266,10 +271,20 @@ class OutputFiles:
         # The same file(s) may be requested more than once, for example when
         # a demultiplexing adapter is named like the file for reads without
         # adapter. Opening a path again would truncate it and lose records.
-        # Different spellings of a path ("x", "./x") are the same file
+        # Different spellings of a path ("x", "./x") are the same file.
+        # A writer requested with exclusive=True (reads redirected by a filter)
+        # is never shared: its reads are not counted as written
         key = (tuple(_normalized(path) for path in paths), interleaved)
         if key in self._record_writers:
-            return self._record_writers[key]
+            if not (exclusive or key in self._exclusive_writers):
+                return self._record_writers[key]
+            if not all(_is_special_file(path) for path in key[0]):
+                raise OSError(
+                    f"Path {paths[0]} is needed for more than one output file. "
+                    "This is not supported."
+                )
+        if exclusive:
+            self._exclusive_writers.add(key)
         for i, path in enumerate(key[0]):
             if path in self._used_paths or (
                 path in key[0][:i] and path != "-" and not _is_special_file(path)
